@@ -201,13 +201,16 @@ def install_tracing():
 ENTRIES = {}
 
 
-def entry(name, dims, variants=1, kernels=(), nt=None, cost=1):
+def entry(name, dims, variants=1, kernels=(), nt=None, region=None):
     """dims: tuple of (dim name, max for the random part).  The exhaustive
     part enumerates {0,1,2,3} for every dim.  ``nt``: (index of N, index of
-    T) for the 'more nodes than samples' rule."""
+    T) for the 'more nodes than samples' rule.  ``region(case)``: optional
+    tag of a parameter region that gets its own failure signature (suffix
+    of the clause name), so that a known finding stays narrow."""
     def deco(fn):
         ENTRIES[name] = {"fn": fn, "dims": tuple(dims), "variants": variants,
-                         "kernels": tuple(kernels), "nt": nt, "cost": cost}
+                         "kernels": tuple(kernels), "nt": nt,
+                         "region": region}
         return fn
     return deco
 
@@ -311,7 +314,7 @@ def e_nsi_betw(case, t):
 
 @entry("net_newman_betweenness", (("N", 8),), variants=3,
        kernels=("core._mpi_newman_betweenness",
-                "core._mpi_nsi_newman_betweenness"), cost=3)
+                "core._mpi_nsi_newman_betweenness"))
 def e_newman(case, t):
     (N,) = case["d"]
     t.wellformed = N >= 2
@@ -560,6 +563,26 @@ def e_rp(case, t):
         t.call("recurrence_rate", rp.recurrence_rate)
 
 
+@entry("rp_adaptive_order", (("T", 10), ("L", 10)), variants=3,
+       kernels=("timeseries._set_adaptive_neighborhood_size",))
+def e_rp_order(case, t):
+    """set_adaptive_neighborhood_size with a caller-supplied processing
+    order (documented: 1D array of int32 node indices)."""
+    T, L = case["d"]
+    t.wellformed = T >= 2 and L == T
+    ok, rp = t.call("RecurrencePlot", _rp, case, T, 1,
+                    METRICS[int(case["p"]) % 3], "threshold")
+    if not ok:
+        return
+    rs = _rs(case, 19)
+    order = rs.permutation(max(T, L))[:L] if L <= T else \
+        rs.randint(0, max(1, T), size=L)
+    order = relayout(np.asarray(order, dtype=np.int32), case["layout"])
+    t.call("set_adaptive_neighborhood_size",
+           rp.set_adaptive_neighborhood_size, 1 + int(case["vs"]) % 3,
+           order=order)
+
+
 @entry("rp_embedding", (("T", 12), ("dim", 4), ("tau", 4)), variants=3,
        kernels=("timeseries._embed_time_series",))
 def e_rp_embed(case, t):
@@ -714,7 +737,7 @@ def e_surr_pearson(case, t):
 
 @entry("surr_test_mutual_information", (("N", 6), ("T", 12), ("n_bins", 8)),
        variants=2, kernels=("timeseries._test_mutual_information",),
-       nt=(0, 1))
+       nt=(0, 1), region=lambda c: "n_bins_0" if c["d"][2] == 0 else None)
 def e_surr_mi(case, t):
     from pyunicorn.timeseries import Surrogates
     N, T, n_bins = case["d"]
@@ -792,8 +815,7 @@ def e_ca_cc(case, t):
 
 
 @entry("ca_mutual_information", (("T", 16), ("N", 4), ("tau_max", 3)),
-       variants=6, kernels=("funcnet._get_nearest_neighbors",), nt=(1, 0),
-       cost=3)
+       variants=6, kernels=("funcnet._get_nearest_neighbors",), nt=(1, 0))
 def e_ca_mi(case, t):
     T, N, tau = case["d"]
     p = int(case["p"]) % 6
@@ -814,7 +836,7 @@ def e_ca_mi(case, t):
 
 @entry("ca_information_transfer", (("T", 16), ("N", 3), ("tau_max", 3),
                                    ("past", 3)), variants=4,
-       kernels=("funcnet._get_nearest_neighbors",), nt=(1, 0), cost=4)
+       kernels=("funcnet._get_nearest_neighbors",), nt=(1, 0))
 def e_ca_it(case, t):
     T, N, tau, past = case["d"]
     p = int(case["p"]) % 4
@@ -829,6 +851,34 @@ def e_ca_it(case, t):
                estimator="knn", knn=knn, past=past,
                cond_mode=("ity", "mit")[p % 2],
                lag_mode=("max", "all")[p // 2])
+
+
+@entry("ca_get_nearest_neighbors", (("dim", 4), ("T", 14), ("k", 5)),
+       variants=4, kernels=("funcnet._get_nearest_neighbors",))
+def e_ca_knn(case, t):
+    """The public static helper with caller-chosen X/Y/Z partition."""
+    from pyunicorn.funcnet import CouplingAnalysis
+    dim, T, k = case["d"]
+    p = int(case["p"]) % 4
+    # X = first component, Y = the next 1..2, Z = the rest
+    ny = 1 + p % 2
+    xyz = np.array(([0] + [1] * ny + [2] * dim)[:dim], dtype=int)
+    standardize = p < 2 or case["vc"] in ("nan", "huge")
+    # termination precondition of the growing-cube search: k < T - 1
+    if k >= T - 1:
+        k = max(0, T - 2)
+    t.wellformed = dim >= 2 and T >= 3 and k >= 1 and \
+        case["vc"] == "random"
+    if k < 1 or T < 3:
+        # the loop `while n <= k` cannot terminate with k >= T; the public
+        # callers guard with 1 <= knn <= T/2: keep to that domain
+        t.steps.append({"step": "skipped_outside_termination_domain",
+                        "exc": None})
+        return
+    _seed(case)
+    t.call("get_nearest_neighbors", CouplingAnalysis.get_nearest_neighbors,
+           mk(case, (dim, T), dtype="f8" if case["dtype"] in ("i8", "b1")
+              else None), xyz, k, standardize)
 
 
 @entry("ca_symmetrize_by_absmax", (("N", 6), ("M", 6)), variants=2,
